@@ -198,6 +198,10 @@ func getOctoSQLValue(t octosql.Type, value *fastjson.Value) (out octosql.Value, 
 	case octosql.TypeIDList:
 		if value.Type() == fastjson.TypeArray {
 			arr, _ := value.Array()
+			if t.List.Element == nil {
+				// Only empty lists were seen when the schema was inferred.
+				return octosql.NewList(nil), len(arr) == 0
+			}
 			values := make([]octosql.Value, len(arr))
 
 			outOk := true
